@@ -675,12 +675,18 @@ impl Vm {
         let catch_address = handler.handler();
         let environment_sp = frame.env_fp + handler.environment_count;
 
+        // Values that the abandoned expression left above the registers of the frame
+        // (for instance `this`, the function and the arguments of a call whose argument threw).
+        let stack_sp = frame.rp as usize + frame.code_block().register_count as usize;
+
         // Go to handler location.
         frame.pc = u32::from(catch_address);
 
         self.frame_mut()
             .environments
             .truncate(environment_sp as usize);
+
+        self.stack.truncate(stack_sp);
 
         true
     }
